@@ -6,7 +6,7 @@ V = os.path.dirname(os.path.abspath(__file__))
 TECH = "symbolic execution of the real Go SSA (gosym, fork of x/tools go/ssa/interp) with branch feasibility and assertions decided by z3; counterexamples replayed natively"
 claimed = {
  "C17": dict(
-  text="Bounded model checking by symbolic execution of the real parse_pdr.go functions: every path of CreatePortRangeCartesianProduct / classification / trivial conversion is executed with both ranges and a probe packet symbolic; the solver decides on each path that the produced rules match exactly the ranges (or that refusal happens exactly for unrepresentable pairs). Complete for all 2^32 ranges per side and all probes for the Exact strategy. The Ternary strategy is covered by an inductive block lemma over the real portMask/maxPort literals for every (block start, range end) and every probe, plus the whole expansion loop for all ranges up to 8 (quick) / 12 (thorough) ports wide.",
+  text="Bounded model checking by symbolic execution of the real parse_pdr.go functions: every path of CreatePortRangeCartesianProduct / classification / trivial conversion is executed with both ranges and a probe packet symbolic; the solver decides on each path that the produced rules match exactly the ranges (or that refusal happens exactly for unrepresentable pairs). Complete for all 2^32 ranges per side and all probes for the Exact strategy. The Ternary strategy is covered by an inductive block lemma over the real portMask/maxPort literals for every (block start, range end) and every probe, plus the whole expansion loop for all ranges up to 8 (quick) / 12 (thorough) ports wide. Refusal end to end (shared harness H_C03_wide): an unrepresentable pair arriving in an establishment, in a modification creating or updating a PDR, or handed to the BESS plug-in with both sides ranges, is refused and nothing is written.",
   note="Assumes ranges are not inverted (parsePort refuses them; C08). Ternary ranges wider than the stated width rest on the block lemma plus the four-line loop (continue at block end + 1 while <= high), which is only executed for the bounded widths. Trusts z3, go/ssa's lowering of the source, and the engine's instruction semantics (validated on every run by replaying sampled passing paths natively and comparing observations).",
   ref="DESIGN.md 6.17, 10"),
 }
@@ -16,7 +16,7 @@ claimed.update({
   note="History bound: establishment + 1 (quick) / 2 (thorough) further requests over <= 2 sessions; maxRetries = 2; fake datapath; request shapes are those of a well-formed baseline (malformed shapes are C01). Trust: z3, go/ssa, engine semantics (validated per run by native replay of sampled paths).",
   ref="DESIGN.md 6.2"),
  "C06": dict(
-  text="Inductive one-step check: from an arbitrary pool state satisfying the representation invariant (symbolic addresses, SEIDs, free/held split) one LookupOrAllocIP / DeallocIP with a symbolic SEID is executed symbolically and the solver decides range, exclusivity, stickiness, conservation and refusal-only-when-full; because the pre-state is arbitrary, histories of any length are covered for the pool sizes explored. Interleavings are covered by a path-sensitive lock-discipline check (every access to inventory/freePool on every path holds IPPool.mu), replayed with the race detector when violated. Construction is checked on concrete prefixes.",
+  text="Inductive one-step check: from an arbitrary pool state satisfying the representation invariant (symbolic addresses, SEIDs, free/held split) one LookupOrAllocIP / DeallocIP with a symbolic SEID is executed symbolically and the solver decides range, exclusivity, stickiness, conservation and refusal-only-when-full; because the pre-state is arbitrary, histories of any length are covered for the pool sizes explored. Interleavings are covered by a path-sensitive lock-discipline check (every access to inventory/freePool on every path holds IPPool.mu), replayed with the race detector when violated. Construction is checked on concrete prefixes. Conservation at the session level is checked by the shared harness H_C05_cycles (more attach/detach cycles than the pool has addresses, every kind of session end).",
   note="Pool sizes /29 (quick), /28 (thorough); the allocation trigger (UE IP Address IE flags) is exercised through C02/C05 harnesses. Assumes sync.Mutex gives mutual exclusion; goroutine schedules are not executed.",
   ref="DESIGN.md 6.6"),
  "C07": dict(
@@ -29,7 +29,7 @@ claimed.update({
   ref="DESIGN.md 6.9"),
  "C19": dict(
   text="Bounded model checking of ConfigHandler.ServeHTTP / handleSliceConfig / calculateBitRates with the method an arbitrary string, the body unreadable, malformed or any well-formed NetworkSlice with 64-bit rates and bursts, against a recording ResponseWriter and datapath; the solver decides one 405 and no datapath call for other methods, exactly one 4xx and no datapath call for bad bodies, one 201 and rates = MBR x unit (checked against overflow-free arithmetic) whenever non-zero and < 2^63.",
-  note="encoding/json is stubbed under the engine (fails or overwrites the target arbitrarily) and real in the native replay; the BESS/UP4 AddSliceInfo implementations are exercised in the plug-in harnesses.",
+  note="encoding/json is stubbed under the engine following its documented contract over three kinds of body - well-formed, malformed from the start, well-formed value followed by junk (Unmarshal accepts only the first; Decoder.Decode also decodes the first value of the third) - and real in the native replay; the BESS/UP4 AddSliceInfo implementations are exercised in the plug-in harnesses.",
   ref="DESIGN.md 6.19"),
 })
 claimed.update({
@@ -76,15 +76,15 @@ claimed.update({
   note="A failing Write applies nothing (P4Runtime batch atomicity as the agent uses it: one update per Write) except ALREADY_EXISTS, which the agent tolerates. Pools shrunk to 6 cells so that exhaustion and reuse are reachable. Two faults in one history are outside.",
   ref="DESIGN.md 6.15, 10"),
  "C16": dict(
-  text="Bounded model checking of encoding validity: every table entry, meter entry and counter request the P4rtTranslator builds (all five table builders on arbitrary arguments; sendCreate/sendDelete end to end for symbolic uplink and downlink PDRs) is validated, field by field, against the P4Info regenerated on every run from conf/p4/bin/p4info.txt: table/action/field/param ids exist and belong together, value widths fit the declared bit widths in canonical form, match kinds agree, priorities present exactly for ternary/range tables, meter/counter indices within size. A precondition re-runs the generator and compares internal/p4constants byte for byte.",
+  text="Bounded model checking of encoding validity: every table entry, meter entry and counter request the P4rtTranslator builds (all five table builders on arbitrary arguments; sendCreate/sendDelete end to end for symbolic uplink and downlink PDRs) is validated, field by field, against the P4Info regenerated on every run from conf/p4/bin/p4info.txt: table/action/field/param ids exist and belong together, value widths fit the declared bit widths in canonical form, match kinds agree, priorities present exactly for ternary/range tables, meter/counter indices within size. The start-up identifier pools (meter and counter cells, tunnel-peer and application ids) are checked to hold only values valid for the declared arrays and field widths. A precondition re-runs the generator and compares internal/p4constants byte for byte.",
   note="Rule values inside the envelope the PFCP handlers guarantee (prefix masks, ordered ports, 6-bit QFI, 40-bit rates, slice <= 15, TC <= 3). The validator is the harness's own reading of the P4Runtime specification section 9.1; a real switch is outside.",
   ref="DESIGN.md 6.16, 10"),
  "C18": dict(
-  text="Bounded model checking of LoadConfigFile's default filling and validateConf on an arbitrary decoded Conf (every field the two functions read symbolic, strings as atoms with ParseCIDR/ParseIP/ParseDuration uninterpreted): the solver decides on every path that a configuration is accepted only if mode, addresses, pool, timeouts, retries and log level are within their documented domains, that the documented defaults are filled exactly when the field is absent, and that an unreadable or undecodable file is an error.",
-  note="Narrowed: os.ReadFile, comment stripping and json.Unmarshal are stubs under the engine (real in the native replay, which writes the model as a commented JSON file); JSON syntax, 'never panics on arbitrary bytes' and the shipped sample files are not claimed.",
+  text="Bounded model checking in two parts. (1) LoadConfigFile's default filling and validateConf on an arbitrary decoded Conf (every field the two functions read symbolic, strings as atoms with ParseCIDR/ParseIP/ParseDuration uninterpreted): on every path the solver decides that a configuration is accepted only if mode, addresses, pool, timeouts, retries and log level are within their documented domains, that the documented defaults are filled exactly when the field is absent, and that an unreadable or undecodable file is an error. (2) removeComments: the real regular expression is compiled and executed by the real regexp package under the engine (syntax.Parse, compile, backtracker, ReplaceAllString) on text whose bytes are symbolic: three text segments and two comments (block/block, line/line, block/line, line/block), each 0..2 (quick) / 0..3 (thorough) arbitrary printable-ASCII bytes; the result must be the text with exactly the comments cut out.",
+  note="Narrowed: os.ReadFile and json.Unmarshal are stubs under the engine (real in the native replay, which writes the model as a commented JSON file); JSON syntax, 'never panics on arbitrary bytes', non-ASCII text and the shipped sample files are not claimed. Text segments contain no '/', block-comment bodies no '*/' (so that the expected result is unambiguous); longer texts are outside the bound.",
   ref="DESIGN.md 6.18, 10"),
  "C20": dict(
-  text="Symbolic execution of the real conf/route_control.py (Python) by CrossHair with z3: netlink route/neighbour events over a small universe of prefixes, gateways, interfaces and MAC addresses are symbolic; after each event sequence (3 events quick / 4 thorough; all kind sequences of new-route / delete-route / neighbour-resolution; the first event's indices fixed per process, the others symbolic) the fake BESS's IPLookup/Update module state must equal the image of the kernel tables the events describe (routes whose next hop resolved, one Update module per neighbour with correct gates, nothing left for deleted routes).",
+  text="Symbolic execution of the real conf/route_control.py (Python) by CrossHair with z3: netlink route/neighbour events over a small universe of prefixes, gateways, interfaces and MAC addresses are symbolic; after each event sequence (quick: all 27 kind sequences of 3 events plus the 12 orders of {new route, new route, delete route, neighbour resolution}; thorough: all 81 sequences of 4 events; kinds are new-route / delete-route / neighbour-resolution; the first event's indices fixed per process, the others symbolic) the fake BESS's IPLookup/Update module state must equal the image of the kernel tables the events describe (routes whose next hop resolved, one Update module per neighbour with correct gates, nothing left for deleted routes).",
   note="pyroute2, pybess and scapy are stub modules (documented contracts); universes A = 3 prefixes x 2 next hops x 1 interface and B = 2 prefixes x 1 next hop x 2 interfaces; CrossHair's per-path timeout is a bound: paths it does not finish are reported in the evidence. One known finding (neighbour cache keyed by IP only) is listed in known_findings.json.",
   engine="crosshair",
   technique="symbolic execution of the real Python source with CrossHair (z3 back end); counterexamples replayed on the plain interpreter",
